@@ -1,6 +1,6 @@
 /- C12, part bee (bee search): a filter or merge declarations remove only what they should.
    Safety halves proved for every history; the liveness halves are compared (and are violated by the
-   implementation: findings C12-F5, C12-F6, C12-F7). -/
+   implementation: findings C12-F9, C12-F10, C12-F11). -/
 import PS.Proofs.Enum.BeeOrderRun
 import PS.Proofs.Enum.BeeDeleted
 import PS.Props.C02_Bee
@@ -26,7 +26,7 @@ theorem C12_Bee_yield_not_deleted (E : Env S) (g g' : Gen S) (p : Prog) (h : ste
 /-- `merge_program(_, other)` puts `other` in `_deleted`, sets `_has_merged`, erases `other` (first occurrence) from
     every list of every bank whose non-terminal is in the rule table and has the type of `other`, and leaves the
     queues, the delayed combinations and the cost list alone (so combinations already queued and programs that
-    CONTAIN `other` stay: finding C12-F6) -/
+    CONTAIN `other` stay: finding C12-F10) -/
 theorem C12_Bee_merge_effect (E : Env S) (g : Gen S) (other : Prog) (ty : Ty) :
     (merge E g other ty).st.deleted.contains other = true ∧ (merge E g other ty).st.hasMerged = true ∧
     (merge E g other ty).st.queued = g.st.queued ∧ (merge E g other ty).st.delayed = g.st.delayed ∧
@@ -57,7 +57,7 @@ example : (merge cE ((Gen.new cE).get (by decide +kernel)) (.node cOne []) cInt)
 /-- **A MERGED PROGRAM IS NEVER YIELDED AGAIN**, every history: after `merge_program(_, other)` — whatever the state
     `g` reached before (any earlier history), whatever the later interleaving of `next` calls and further merges —
     `other` itself is not among the programs yielded afterwards (`_deleted` only grows and a program is yielded only
-    if it is not in `_deleted`).  Programs that CONTAIN `other` may still be yielded: finding C12-F6. -/
+    if it is not in `_deleted`).  Programs that CONTAIN `other` may still be yielded: finding C12-F10. -/
 theorem C12_Bee_merged_never_yielded (E : Env S) (fuel : Nat) (g g' : Gen S) (other : Prog) (ty : Ty) (acts : List Act)
     (out : List Prog) (hi : GInv E g) (h : runActs E fuel acts (merge E g other ty) [] = some (g', out)) :
     other ∉ out :=
@@ -86,7 +86,7 @@ theorem C12_Bee_sorted_with_filter_and_merges (E : Env S) (hw : nonnegW E = true
     (gord_new E (nnw_of_check E hw) (dictOK_of_check E hd) g0 h0 0 (Int.le_refl _)) ⟨by simp, by simp⟩
   exact hs.1
 
-/-! ### finding C12-F7: with a rejecting filter the generator never reaches its stop condition -/
+/-! ### finding C12-F11: with a rejecting filter the generator never reaches its stop condition -/
 
 /-- the example grammar with a filter that rejects `(+ 1 1)` -/
 def rE : Env Nat := { cE with filter := fun p => !(p == Tree.node cPlus [.node cOne [], .node cOne []]) }
@@ -94,7 +94,7 @@ def rE : Env Nat := { cE with filter := fun p => !(p == Tree.node cPlus [.node c
 /-- without the filter the generator stops after its five programs; with the filter it yields the four accepted
     programs and then is still running after 400 more control points (the program count 5 is never reached and the
     queues never empty: the implementation's `list(enumerator)` hangs) -/
-theorem finding_C12_F7 :
+theorem finding_C12_F11 :
     ((Gen.new cE).bind fun g => take cE 400 6 g []).map (fun r => (r.2.1.length, r.2.2)) = some (5, true) ∧
     ((Gen.new rE).bind fun g => take rE 400 4 g []).map (fun r => (r.2.1.length, r.2.2)) = some (4, false) ∧
     ((Gen.new rE).bind fun g => take rE 400 5 g []) = none := by
